@@ -48,6 +48,7 @@ def run(ctx):
     exact_label_rule(ctx)
     _r8_opt_removed(ctx)
     _r9_record_header_verbatim(ctx)
+    _r10_opt_emitted_with_edns(ctx)
 
 
 def _r8_opt_removed(ctx):
@@ -560,3 +561,42 @@ def _r9_record_header_verbatim(ctx):
                 okk = [x[0] for x in order] == [256 ** (width - 1 - i) for i in range(width)] and len({x[1][1] for x in w}) == 1
             ctx.check(okk, "R9", "reader:%s=big-endian-octets" % name, ctx.where(b, st["sp"]),
                       "the value must be the next octets in network order, nothing else (is %s)" % show(v)[:160])
+
+
+def _r10_opt_emitted_with_edns(ctx):
+    """the upper eight bits of the response code travel only in the OPT record: the encoder must emit it whenever the message
+    carries EDNS data, whatever else is or is not known about the peer (a reply relayed to a client that sent no OPT still needs
+    it to say BADVERS / BADCOOKIE instead of NOERROR / YXRRSET)"""
+    P = ctx.P
+    encs = [b for b in P.bodies.values() if b.id.startswith("erbium::dns::dnspkt::DNSPkt::") and b.kind != "closure"]
+    n = 0
+    for b in encs:
+        T = None
+        for _, bb, idx, st in find_aggs(P, "dns::dnspkt::RR", [b]):
+            T = T or terms(P, b)
+            f = dict(T.rvalue(st["rv"], bb, idx)[3])
+            if not is_const(norm(f.get("rrtype", ("unknown",))), 41) and "RR_OPT" not in str(norm(f.get("rrtype", ("unknown",)))):
+                continue
+            n += 1
+            ctx.saw(b)
+            cfg = cfg_of(b)
+            foreign = []
+            for sbb in cfg.dominators(bb):
+                tm = b.blocks[sbb]["term"]
+                if tm is None or tm["k"] != "switch" or sbb == bb:
+                    continue
+                edges = cfg.switch_edges(sbb)
+                taken = [tgt for _, tgt in edges if cfg.edge_dominates((sbb, tgt), bb)]
+                if not taken or len(taken) == len(edges):
+                    continue          # both arms rejoin before the record (or the switch has one way out): no dependence
+                rets = set(cfg.return_blocks())
+                if not any(({tgt} | set(cfg.reachable_from(tgt))) & rets for _, tgt in edges if tgt not in taken):
+                    continue          # an assertion: the other way out never returns
+                d = norm(T.at_term(tm["discr"], sbb))
+                flds = {y[2] for y in subterms(d) if y[0] == "field" and norm(y[1]) in (("deref", ("param", 1)), ("param", 1))}
+                if flds - {"edns"}:
+                    foreign.append("%s at %s" % (sorted(flds - {"edns"}), P.rel(tm["sp"]) if "sp" in tm else "?"))
+            ctx.check(not foreign, "R10", "opt-record-emitted-whenever-edns-data-is-present", ctx.where(b, st["sp"]),
+                      "the OPT record may depend on self.edns only; its emission also depends on %s" % (foreign or "-"))
+    if ctx.config in ("default", "dns"):
+        ctx.floor("R10", "OPT record constructions in the encoder", n, 1)
